@@ -149,6 +149,39 @@ Proof.
   repeat split; [exact H1 | exact H2 | now apply normalize_render_snoc | now apply render_snoc_neq].
 Qed.
 
+(* the normalised form of a path whose last element (filepath.Split) is a good element *)
+Lemma normalize_by_split p :
+  let D := fst (path_split p) in let b := snd (path_split p) in
+  good_seg b ->
+  nf (is_rooted D) (clean_segs D ++ [b]) /\ normalize_path p = render (is_rooted D) (clean_segs D ++ [b]).
+Proof.
+  intros D b Hb. destruct (path_split_spec p) as [Hp [Hsf HD]]. fold D b in Hp, Hsf, HD.
+  clearbody D b. subst p.
+  assert (Hnf : nf (is_rooted D) (clean_segs D ++ [b])) by (apply nf_snoc_good; [apply clean_segs_nf | exact Hb]).
+  split; [exact Hnf|].
+  assert (Hc : is_rooted (D ++ b) = is_rooted D /\ clean_segs (D ++ b) = clean_segs D ++ [b]).
+  { destruct Hb as [[Hb1 [Hb2 Hb3]] Hb4]. destruct HD as [HD | [D' HD]].
+    - subst D. cbn [app].
+      assert (Hr : is_rooted b = false).
+      { destruct b as [|c b']; [reflexivity|]. cbn [is_rooted]. destruct (N.eqb c SLASH) eqn:E; [|reflexivity].
+        apply N.eqb_eq in E. exfalso. apply Hb4. now left. }
+      split; [exact Hr|]. unfold clean_segs. rewrite Hr.
+      rewrite split_slash_free by exact Hb4. rewrite norm_aux_push by assumption. reflexivity.
+    - assert (Hr : is_rooted (D ++ b) = is_rooted D).
+      { rewrite HD. rewrite <- app_assoc. destruct D'; reflexivity. }
+      split; [exact Hr|]. unfold clean_segs at 1. rewrite Hr.
+      rewrite HD at 2. rewrite <- app_assoc. cbn [app].
+      rewrite split_slash_app_gen. rewrite (split_slash_free b) by exact Hb4.
+      rewrite norm_aux_app. rewrite norm_aux_push by assumption. cbn [norm_aux rev]. rewrite rev_involutive.
+      f_equal. unfold clean_segs. rewrite HD at 3.
+      change (D' ++ [SLASH]) with (D' ++ SLASH :: []). rewrite split_slash_app_gen, norm_aux_app.
+      change (split_slash []) with [[] : str]. rewrite norm_aux_skip by now left. cbn [norm_aux].
+      now rewrite rev_involutive. }
+  destruct Hc as [Hr Hs].
+  assert (Hcl : clean (D ++ b) = render (is_rooted D) (clean_segs D ++ [b])) by (unfold clean; now rewrite Hr, Hs).
+  unfold normalize_path. rewrite Hcl. now rewrite render_not_dots.
+Qed.
+
 (* ------------------------------------------------------------------------------------ *)
 (** * association lists and list_set *)
 
@@ -361,4 +394,33 @@ Proof.
     rewrite alist_get_set_other by exact Hk. exact Hx.
   - exact Hhd.
   - exact Hck.
+Qed.
+
+(* ------------------------------------------------------------------------------------ *)
+(** * the parent of a normalised path *)
+
+Lemma parent_key_render r l b : nf r (l ++ [b]) -> good_seg b ->
+  parent_key (render r (l ++ [b])) = normalize_path (render r l) /\ parent_key (render r (l ++ [b])) <> render r (l ++ [b]).
+Proof.
+  intros Hnf Hb. destruct (path_split_render _ _ _ Hnf) as [_ H2].
+  assert (E : parent_key (render r (l ++ [b])) = normalize_path (render r l)).
+  { unfold parent_key, path_dir. now rewrite H2. }
+  split; [exact E|]. rewrite E. intros Heq. apply (f_equal clean_segs) in Heq.
+  rewrite (clean_segs_render _ _ Hnf) in Heq.
+  pose proof (nf_app_inv _ _ _ Hnf) as Hl.
+  unfold normalize_path in Heq. rewrite (clean_render _ _ Hl) in Heq.
+  destruct (is_dot (render r l) || is_dotdot (render r l)).
+  - change (clean_segs s_slash) with ([] : list str) in Heq. destruct l; discriminate.
+  - rewrite (clean_segs_render _ _ Hl) in Heq. apply (f_equal (@length str)) in Heq.
+    rewrite app_length in Heq. cbn in Heq. lia.
+Qed.
+
+Theorem parent_key_by_split p :
+  good_seg (snd (path_split p)) ->
+  parent_key (normalize_path p) = normalize_path (fst (path_split p)) /\ parent_key (normalize_path p) <> normalize_path p.
+Proof.
+  intros Hb. destruct (normalize_by_split p Hb) as [Hnf ->].
+  destruct (parent_key_render _ _ _ Hnf Hb) as [H1 H2]. split; [|exact H2].
+  rewrite H1. change (render (is_rooted (fst (path_split p))) (clean_segs (fst (path_split p))))
+    with (clean (fst (path_split p))). apply normalize_clean.
 Qed.
